@@ -50,6 +50,11 @@ CHECKS["C04"] = dict(
     text="Exhaustive within the bound: every sequence of up to 2 (quick) / 3 (thorough) units over 34 authored units (characters, references in three spellings, literal entity-looking text, nested tagged spans, WebVTT voice/class/ruby/lang/timestamp/unknown tags, wraps, breaks) for each format the units exist in; random long sequences with all HTML named entities and supplementary-plane references beyond. Two open known findings are re-validated with exactly that deviation enabled.",
     design="4 C04")
 
+CHECKS["C08"] = dict(
+    technique="TLA+ spec Chain.tla: TLC proves the hop abstraction composed along every chain equals the truncation closed form and that a second pass is the identity (MC_Chain), and judges the (start, end, lines) observed after every hop of both passes of real write/read chains (Trace_Chain, exact BigNat times, text normalised in TLA+)",
+    text="Exhaustive over all chains of length <= 2 (quick) / 3 (thorough) of the five formats on the residue-grid cue sets, two passes each; random chains up to length 6 over random sets (printable Unicode and metacharacter texts, up to 10 cues, 1-3 languages on DFXP/SAMI chains) beyond. Each hop uses pycaption's own writer and reader; the hop that breaks is named by the verdict.",
+    design="4 C08")
+
 NOT_YET = {}
 
 
